@@ -434,6 +434,11 @@ class Gen:
                     ignore_file_at = len(lines)
                 lines += [self.directive("ignore-file")]
                 truth += ["M"]
+            elif r < 0.26 and self.f["lua"]:
+                l, t, g = self.p_lua_pair()
+                lines += l
+                truth += t
+                tags |= g
             else:
                 l, t, g = self.simple_piece()
                 lines += l
